@@ -142,7 +142,9 @@ def category(msg, true_sender=None):
     """Stable class of a message for violation keys and signatures (never contains names or serials)."""
     k = msg.known()
     sender = true_sender if true_sender is not None else k.get(7)
-    tn = {1: "call", 2: "return", 3: "error", 4: "signal"}.get(msg.type, "type%d" % msg.type)
+    # message types above 4 are legal on the wire ("unknown types must be ignored"); the bus refuses to route them, which
+    # makes them 'messages the bus refuses to deliver'; a filter naming type= can never match one, any other filter can
+    tn = {1: "call", 2: "return", 3: "error", 4: "signal"}.get(msg.type, "unknown-type")
     if sender == BUS:
         if msg.type == 4:
             return "bus-signal:%s" % (k.get(3) or b"?").decode("latin1")
